@@ -255,6 +255,12 @@ func checkC02(c KeyCase) (bool, *Violation) {
 				if offs > 1 {
 					return true, violation("C02", "release-count", "managed", "%s emitted %d Note Offs (%s)", describeStep(i, ws), offs, fmtMsgs(out))
 				}
+				// in the managed modes the release of the LAST holder of a pitch is the one that produces the Note Off
+				// (the mode rule itself is C03's business; here: the pinned Note Off must not get lost)
+				if c.D.Mode != "off" && offs == 0 && len(ws.Model.Out) == 1 {
+					return true, violation("C02", "release-lost", c.D.Mode,
+						"%s: this key is the last holder of channel %d pitch %d, but its release emitted no Note Off", describeStep(i, ws), p.ch+1, p.pitch)
+				}
 				if p.stateAt != ws.Pre {
 					nontrivial = true
 					classifyIf(p.stateAt.Mapping != ws.Pre.Mapping, "released under another mapping")
